@@ -428,6 +428,14 @@ def build_models(I):
 
     def m_sorted(xs, **kw):
         xs = list(I.iterate(_it(xs)))
+        key = kw.get("key")
+        if key is not None:
+            # the order depends on the keys only: evaluate them through the interpreter; concrete keys give a concrete order
+            keys = [I.call_value(key, (x,), {}) for x in xs]
+            if contains_sym(keys):
+                raise EngineError("sorted() with symbolic keys")
+            order = sorted(range(len(xs)), key=lambda i: keys[i], reverse=bool(kw.get("reverse", False)))
+            return [xs[i] for i in order]
         if contains_sym(xs):
             raise EngineError("sorted() on symbolic values")
         return sorted(xs, **kw)
